@@ -75,18 +75,28 @@ func matchPattern(pat, full string) bool {
 	if pat == "*" {
 		return true
 	}
+	// wildcards are recognised before '*' (pointer receivers) is stripped from the pattern
+	tailWild := strings.HasSuffix(pat, ".*")
+	headWild := strings.HasPrefix(pat, "*.")
+	if tailWild {
+		pat = pat[:len(pat)-1]
+	}
+	if headWild {
+		pat = pat[1:]
+	}
 	p := normRe.ReplaceAllString(pat, "")
 	n := normName(full)
 	fn := fullNorm(full)
 	if strings.Contains(p, "/") {
 		n = fn
 	}
-	if strings.HasSuffix(p, ".*") {
-		pre := p[:len(p)-1]
-		return strings.HasPrefix(n, pre) || strings.Contains(n, "."+pre) || strings.HasPrefix(fn, pre)
+	if tailWild {
+		pre := p
+		// "pkg.*" also names the methods of pkg's types: (*path/to/pkg.T).M normalises to path/to/pkg.T.M
+		return strings.HasPrefix(n, pre) || strings.Contains(n, "."+pre) || strings.HasPrefix(fn, pre) || strings.Contains(fn, "/"+pre)
 	}
-	if strings.HasPrefix(p, "*.") {
-		return strings.HasSuffix(n, p[1:])
+	if headWild {
+		return strings.HasSuffix(n, p)
 	}
 	return n == p || strings.HasSuffix(n, "."+p)
 }
